@@ -74,6 +74,60 @@ def broadcastCacheFlush (self : Nat) (cluster : Option Nat) (db : Bool) (t : Lis
     if !db then [] else
     (listActiveMembers self k t).map (fun p => sendCacheFlush self k p c originHopCount pid)
 
+/-! ### what happens to each SendCacheFlush (per-peer timeout)
+
+`SendCacheFlush` builds its own `client := &http.Client{Timeout: 5 * time.Second}` for every call, so the time
+limit starts afresh for each peer; `BroadcastCacheFlush` logs a send error and goes on to the next peer.
+The functions below mirror that loop with the peers' behaviour made explicit, so that "a slow or failing
+peer never affects delivery to the others" is a theorem (Props.lean, `C29_slow_peer_isolated`) and the
+driver answers with what the peers actually receive. -/
+
+/-- invalidate.go SendCacheFlush: `http.Client{Timeout: 5 * time.Second}`, in milliseconds -/
+def clientTimeoutMs : Nat := 5000
+
+/-- what the endpoint of one peer does with a request (connection set-up idealised to 0 ms) -/
+inductive PeerBeh where
+  | answers (status : Nat) (latencyMs : Nat)  -- receives the request, answers `status` after `latencyMs`
+  | hangsUp                                   -- receives the request, closes the connection without answering
+  | unreachable                               -- nobody listens on the port: the request is never received
+  deriving Repr, DecidableEq
+
+/-- outcome of one SendCacheFlush call -/
+structure SendResult where
+  received : Bool   -- the request reached the peer's HTTP handler
+  err : Bool        -- SendCacheFlush returned a non-nil error (logged by the caller, nothing else)
+  tookMs : Nat      -- time spent in the call
+  deriving Repr, DecidableEq
+
+/-- invalidate.go SendCacheFlush, `client.Do(req)` under the per-call timeout and the 2xx test -/
+def sendResult : PeerBeh → SendResult
+  | .answers st lat =>
+    if lat > clientTimeoutMs then { received := true, err := true, tookMs := clientTimeoutMs }
+    else { received := true, err := !(decide (200 ≤ st) && decide (st < 300)), tookMs := lat }
+  | .hangsUp => { received := true, err := true, tookMs := 0 }
+  | .unreachable => { received := false, err := true, tookMs := 0 }
+
+/-- invalidate.go BroadcastCacheFlush, the loop `for _, peer := range peers { if sendErr := SendCacheFlush(…);
+    sendErr != nil { ui.Log(…) } }`: no early exit, nothing carried from one iteration to the next. -/
+def broadcastLoop (self k : Nat) (beh : Nat → PeerBeh) (c : Int) (pid : Option Nat) :
+    List Row → List (Msg × SendResult)
+  | [] => []
+  | p :: rest =>
+    (sendCacheFlush self k p c originHopCount pid, sendResult (beh p.id)) :: broadcastLoop self k beh c pid rest
+
+/-- BroadcastCacheFlush with the peers' behaviour explicit -/
+def broadcastWith (self : Nat) (cluster : Option Nat) (db : Bool) (t : List Row) (beh : Nat → PeerBeh) (c : Int)
+    (pid : Option Nat) : List (Msg × SendResult) :=
+  match cluster with
+  | none => []
+  | some k => if !db then [] else broadcastLoop self k beh c pid (listActiveMembers self k t)
+
+/-- the requests that reached a peer's handler -/
+def receivedOf (l : List (Msg × SendResult)) : List Msg := (l.filter (fun x => x.2.received)).map (·.1)
+
+/-- time the broadcast goroutine spent -/
+def elapsedMs (l : List (Msg × SendResult)) : Nat := (l.map (fun x => x.2.tookMs)).sum
+
 /-- purge.go purge(id, notify): `(discarded, hookFired)`.
     `on` = caches `active`; `hook` = `OnPurge != nil`. -/
 def cachePurge (on notify hook : Bool) : Bool × Bool :=
@@ -86,6 +140,12 @@ def purgeNode (self : Nat) (cluster : Option Nat) (db hook on : Bool) (notify : 
     (pid : Option Nat) : Bool × Bool × List Msg :=
   let r := cachePurge on notify hook
   (r.1, r.2, if r.2 then broadcastCacheFlush self cluster db t c pid else [])
+
+/-- the same with the peers' behaviour explicit: `(discarded, hookFired, sends with their outcomes)` -/
+def purgeNodeWith (self : Nat) (cluster : Option Nat) (db hook on : Bool) (notify : Bool) (t : List Row)
+    (beh : Nat → PeerBeh) (c : Int) (pid : Option Nat) : Bool × Bool × List (Msg × SendResult) :=
+  let r := cachePurge on notify hook
+  (r.1, r.2, if r.2 then broadcastWith self cluster db t beh c pid else [])
 
 /-- purge.go PurgeAll: Purge(id) for every existing cache id in ascending order -/
 def purgeAllNode (self : Nat) (cluster : Option Nat) (db hook on : Bool) (t : List Row) (cs : List Int) : List Msg :=
